@@ -16,6 +16,7 @@ import PySpikeVerif.Proofs.GenRefine.ApiRecon
 import PySpikeVerif.Proofs.GenRefine.ApiThresh
 import PySpikeVerif.Proofs.GenRefine.ApiTrain
 import PySpikeVerif.Properties.C13
+import Mathlib.Tactic.Linarith
 import PySpikeVerif.Properties.C20
 import PySpikeVerif.Properties.C15
 open PySpike PySpike.Gen PySpike.GenRefine
@@ -64,6 +65,50 @@ theorem tolerance_gap : epsDouble < recEps ∧ recEps - epsDouble < 1 / 10 ^ 22 
     non-empty list with no spike in the two slivers -/
 theorem source_reconcile_is_model (L : List PyTrain) (h : L ≠ []) (hs : NoSliver (L.map ofPy)) :
     GenApi.reconcile_spike_trains L = some ((reconcile (L.map ofPy)).map toPy) := gen_reconcile_is_model L h hs
+
+/-- `NoSliver` holds for every list whose spikes lie inside the common interval — in particular for every list of VALID
+    trains (each train's spikes inside its own edges), which is what the properties quantify over -/
+theorem noSliver_of_inside (L : List Train)
+    (h : ∀ s ∈ L, ∀ x ∈ s.spikes, minList 0 (L.map (·.ts)) ≤ x ∧ x ≤ maxList 0 (L.map (·.te))) : NoSliver L := by
+  intro s hs x hx
+  obtain ⟨h1, h2⟩ := h s hs x hx
+  have he := epsDouble_pos
+  constructor
+  · rintro ⟨_, h4⟩; linarith
+  · rintro ⟨h3, _⟩; linarith
+
+/-- valid trains: spikes inside the train's own edges -/
+theorem noSliver_of_valid (L : List Train) (h : ∀ s ∈ L, ∀ x ∈ s.spikes, s.ts ≤ x ∧ x ≤ s.te) : NoSliver L := by
+  apply noSliver_of_inside
+  intro s hs x hx
+  obtain ⟨h1, h2⟩ := h s hs x hx
+  exact ⟨le_trans (smallest_start (List.mem_map_of_mem hs)) h1, le_trans h2 (largest_end (List.mem_map_of_mem hs))⟩
+
+/-- hence: on every non-empty list of valid trains (sorted or not, with or without repeats, any edges) the translated
+    source IS the model's `reconcile` -/
+theorem source_reconcile_is_model_of_valid (L : List PyTrain) (h : L ≠ [])
+    (hv : ∀ s ∈ L, ∀ x ∈ s.spikes, s.t_start ≤ x ∧ x ≤ s.t_end) :
+    GenApi.reconcile_spike_trains L = some ((reconcile (L.map ofPy)).map toPy) := by
+  apply source_reconcile_is_model L h
+  apply noSliver_of_valid
+  intro s hs x hx
+  obtain ⟨t, ht, rfl⟩ := List.mem_map.mp hs
+  exact hv t ht x hx
+
+/-- already valid input (common edges, strictly increasing spike times inside them) is returned as it is by the
+    translated source: `Reconcile=True` (the default) and `Reconcile=False` then see the same trains -/
+theorem source_reconcile_valid_unchanged (L : List PyTrain) (h : L ≠ []) (ts te : Q)
+    (hv : ∀ t ∈ L, t.t_start = ts ∧ t.t_end = te ∧ t.spikes.Pairwise (· < ·) ∧ ∀ x ∈ t.spikes, ts ≤ x ∧ x ≤ te) :
+    GenApi.reconcile_spike_trains L = some L := by
+  have hv' : ∀ t ∈ L.map ofPy, t.ts = ts ∧ t.te = te ∧ t.spikes.Pairwise (· < ·) ∧ ∀ x ∈ t.spikes, ts ≤ x ∧ x ≤ te := by
+    intro t ht
+    obtain ⟨u, hu, rfl⟩ := List.mem_map.mp ht
+    exact hv u hu
+  rw [source_reconcile_is_model_of_valid L h (fun s hs x hx => by
+        obtain ⟨h1, h2, _, h4⟩ := hv s hs
+        rw [h1, h2]; exact h4 x hx),
+      valid_input_unchanged (L.map ofPy) ts te hv', List.map_map]
+  simp [Function.comp_def]
 
 /-- the pair form `reconcile_spike_trains_bi` -/
 theorem source_reconcile_pair_is_model (a b : PyTrain) (hs : NoSliver [ofPy a, ofPy b]) :
